@@ -62,6 +62,15 @@ class BorderUtil:
         )
 
     @classmethod
+    def _format(cls, io, string, style):  # type: (IO, str, Style) -> str
+        if style is None:
+            # The line is written with io.write(), which reads the markup: reading
+            # it here as well would turn escaped text into markup the second time
+            return string
+
+        return io.format(string, style)
+
+    @classmethod
     def draw_row(
         cls,
         io,
@@ -82,9 +91,9 @@ class BorderUtil:
             total_lines = max(total_lines, len(row[col]))
 
         nb_columns = len(row)
-        border_vl_char = io.format(style.line_vl_char, style.style)
-        border_vc_char = io.format(style.line_vc_char, style.style)
-        border_vr_char = io.format(style.line_vr_char, style.style)
+        border_vl_char = cls._format(io, style.line_vl_char, style.style)
+        border_vc_char = cls._format(io, style.line_vc_char, style.style)
+        border_vr_char = cls._format(io, style.line_vr_char, style.style)
 
         for i in range(total_lines):
             line = " " * indentation
@@ -119,7 +128,8 @@ class BorderUtil:
                             total_pad_length - left_pad_length
                         )
 
-                    line += io.format(
+                    line += cls._format(
+                        io,
                         cell_format.format(padding_left + cell_line + padding_right),
                         cell_style,
                     )
@@ -157,4 +167,4 @@ class BorderUtil:
         line = line.rstrip()
 
         if line:
-            io.write(io.format(line, style) + "\n")
+            io.write(cls._format(io, line, style) + "\n")
